@@ -329,12 +329,19 @@ func Walk(g *Graph, h Harness, opt Options) *Result {
 	remaining := g.groups
 	deadline := start.Add(opt.Budget)
 
-	rev := make([][]int, len(g.states))
-	for _, e := range g.edges {
-		rev[e.to] = append(rev[e.to], e.from)
-	}
+	// an edge the real object refused to follow twice (it took a sibling successor under the
+	// same label) is "dead": it is no longer used to plan paths, so the walker does not keep
+	// chasing specification successors the implementation never takes
+	refused := make([]int, len(g.edges))
+	dead := make([]bool, len(g.edges))
 	var dist []int
 	recompute := func() {
+		rev := make([][]int, len(g.states))
+		for ei, e := range g.edges {
+			if !dead[ei] {
+				rev[e.to] = append(rev[e.to], e.from)
+			}
+		}
 		dist = make([]int, len(g.states))
 		for i := range dist {
 			dist[i] = -1
@@ -443,7 +450,7 @@ func Walk(g *Graph, h Harness, opt Options) *Result {
 					}
 					for _, ei := range g.out[s] {
 						t := g.edges[ei].to
-						if dist[t] >= 0 && dist[t] < dist[s] {
+						if !dead[ei] && dist[t] >= 0 && dist[t] < dist[s] {
 							cands = append(cands, ei)
 						}
 					}
@@ -452,7 +459,8 @@ func Walk(g *Graph, h Harness, opt Options) *Result {
 			if len(cands) == 0 {
 				break
 			}
-			chosen := g.edges[cands[rng.Intn(len(cands))]]
+			chosenIdx := cands[rng.Intn(len(cands))]
+			chosen := g.edges[chosenIdx]
 			err := h.Apply(chosen.act)
 			var obs any
 			if err == nil {
@@ -494,6 +502,19 @@ func Walk(g *Graph, h Harness, opt Options) *Result {
 				}
 				res.Divergences = append(res.Divergences, d)
 				break
+			}
+			followed := false
+			for _, ei := range matched {
+				if ei == chosenIdx {
+					followed = true
+				}
+			}
+			if !followed {
+				refused[chosenIdx]++
+				if refused[chosenIdx] >= 2 && !dead[chosenIdx] {
+					dead[chosenIdx] = true
+					dirty = true
+				}
 			}
 			// a deviation is reported only when no ideal edge explains the step
 			dev := ""
